@@ -1,7 +1,7 @@
 (* Encoders used by the correspondence check for the binary cursor. *)
 From Coq Require Import List ZArith Bool Arith.
 Import ListNotations.
-From CV Require Import Base.Corr Cursor.BinaryState.
+From CV Require Import Base.Corr Cursor.BinaryState Cursor.IfsCursor.
 
 Definition enc_bst (s:bst) : list Z := [zn (index s); zn (chunk s); zn (instances s)].
 (* one state probe: end, real_chunk, advance, advance_on_success for n' = 0..instances+1 *)
@@ -26,4 +26,11 @@ Definition seq_run (t:nat * list bool) : list Z :=
   match reduce (fun k _ _ => nth k bits false) (seq 0 n) with
   | Done l log => (zn (length l) :: map zn l) ++ flat_map enc_entry log
   | Fuel => [(-99)%Z]
+  end.
+
+(* the cursors of an all-reject run of IfPass on n conditionals: (index, chunk, instances, value) in order *)
+Definition ifs_enum_case (n:nat) : list Z :=
+  match create n with
+  | None => []
+  | Some s => flat_map (fun c => enc_bst (fst c) ++ [zb (snd c)]) (ifs_enum (2 * (S n * S (S n))) (s, false))
   end.
